@@ -220,6 +220,10 @@ structure Req where
   urlHost : Bytes
   /-- `req.URL.Scheme` -/
   scheme : Bytes
+  /-- `url.ParseQuery(req.URL.RawQuery)` reports an error: the raw query contains a pair that cannot be parsed (a `;`, a bad
+  `%` escape). `query` then holds only the pairs that did parse (what `req.URL.Query()` returns); the others are still
+  forwarded. -/
+  queryErr : Bool := false
 
 def authHeader : Bytes := b "Authorization"
 def hostHeader : Bytes := b "host"
@@ -443,9 +447,15 @@ def initFromQuery (lit : Literal) (clock : Clock) (req : Req) : Except VErr Ctx 
     | none => .error .badExpires
     | some e => .ok ⟨true, parts.headD [], midScopes parts, qget q lit.signedHeaders, qget q lit.signature, t, e⟩
 
-/-- `initFromSignedRequest` (header mode iff the Authorization header is non-empty) -/
-def initFromSignedRequest (lit : Literal) (clock : Clock) (req : Req) : Except VErr Ctx :=
+/-- `initFromSignedRequest` **before** `fixes/C06-signature-query-unparsed.patch`: `ctx.Query = req.URL.Query()` (pairs that do
+not parse are silently dropped); header mode iff the Authorization header is non-empty -/
+def initFromSignedRequestLax (lit : Literal) (clock : Clock) (req : Req) : Except VErr Ctx :=
   if hget req.headers authHeader ≠ [] then initFromHeader lit clock req else initFromQuery lit clock req
+
+/-- `initFromSignedRequest` (**as repaired**): a raw query that does not parse completely is refused, so that every
+query parameter that is forwarded is covered by the signature; then header mode iff the Authorization header is non-empty -/
+def initFromSignedRequest (lit : Literal) (clock : Clock) (req : Req) : Except VErr Ctx :=
+  if req.queryErr then .error .badQuery else initFromSignedRequestLax lit clock req
 
 /-- the signature `Verify` recomputes for a parsed context (`ctx.sign(req)`) -/
 def expectedSignature (cfg : Cfg) (cr : Crypto) (clock : Clock) (ctx : Ctx) (secret : Bytes) (req : Req)
@@ -489,5 +499,61 @@ def covered (cfg : Cfg) (clock : Clock) (ctx : Ctx) (req : Req) : Bytes × Bytes
    (canonQuery cfg.lit clock ctx.time (scopeString cfg.lit clock ctx.time ctx.scopes)
       (if ctx.presign then some ⟨ctx.keyId, ctx.expire, ctx.signedHeaders⟩ else none) req.query).1,
    (splitOn 59 ctx.signedHeaders).map (lineBody req))
+
+/-! ## Glue for the regenerated tie by translation (`Gen/FactsC06SignerIR.lean`, `Proofs/SignerIR.lean`)
+
+Index-based `strings` / slice operations of the Go code, Go's `(value, error)` results as pairs, and `Verify`'s
+intermediate values. Contracts of the standard library, not /repo code. -/
+
+/-- `strings.IndexByte(s, c)` -/
+def indexByte (c : UInt8) (s : Bytes) : Int :=
+  match splitFirst c s with
+  | none => -1
+  | some (a, _) => a.length
+
+/-- `l[lo:hi]` -/
+def sliceL {α : Type} (l : List α) (lo hi : Int) : List α := (l.take hi.toNat).drop lo.toNat
+
+/-- `for _, v := range values { sort.Strings(v) }` (the slices alias the map's values) -/
+def sortValues (q : Header) : Header := q.map fun e => (e.1, sortBy id e.2)
+
+def exceptErr {α : Type} : Except VErr α → Option VErr
+  | .ok _ => none
+  | .error e => some e
+
+/-- the `SigningContext` fields after `initFromSignedRequest` (zero values if it failed) -/
+def exceptCtx : Except VErr Ctx → Ctx
+  | .ok c => c
+  | .error _ => ⟨false, [], [], [], [], 0, 0⟩
+
+def veRet : Option VErr → Except VErr Unit
+  | none => .ok ()
+  | some e => .error e
+
+/-- `secret, ok := store.GetSecret(id)` -/
+def getSecretE (store : List (Bytes × Bytes)) (k : Bytes) : Bytes × Bool := ((storeGet k store).getD [], (storeGet k store).isSome)
+/-- `t, e := time.ParseInLocation(timeFormat, s, time.UTC)` as `(t, e != nil)` -/
+def parseTimeE (clock : Clock) (s : Bytes) : Int × Bool := ((clock.parseTime s).getD 0, (clock.parseTime s).isNone)
+/-- `v, e := strconv.ParseUint(s, 0, 64)` as `(time.Duration(v) * time.Second, e != nil)` -/
+def parseExpiresE (clock : Clock) (s : Bytes) : Int × Bool := ((clock.parseExpires s).getD 0, (clock.parseExpires s).isNone)
+
+/-- `ctx.hashBody(req, verify)`: the body hash it leaves in `ctx.BodyHash` -/
+def hashBodyAny (verify : Bool) (cfg : Cfg) (cr : Crypto) (req : Req) (body : Option Bytes) : Bytes :=
+  if verify then hashBodyVerify cfg cr body else (hashBodySign cfg cr req.headers body).1
+
+/-- `ctx.sign(req)` for a context whose `BodyHash` is `bh` (`expectedSignature` = this with `hashBodyVerify`) -/
+def expectedSignatureBH (cfg : Cfg) (cr : Crypto) (clock : Clock) (ctx : Ctx) (secret : Bytes) (req : Req) (bh : Bytes) : Bytes :=
+  let lit := cfg.lit
+  let scope := scopeString lit clock ctx.time ctx.scopes
+  let pre : Option Presign := if ctx.presign then some ⟨ctx.keyId, ctx.expire, ctx.signedHeaders⟩ else none
+  let cq := (canonQuery lit clock ctx.time scope pre req.query).1
+  let creq := canonicalRequest req.method (canonURI req.epath) cq (verifyLines req ctx.signedHeaders).flatten ctx.signedHeaders bh
+  signature lit cr clock secret ctx.time ctx.scopes creq
+
+/-- the parser contract `NoLF` (`Proofs/Signer.lean`) as a test the judge evaluates on every harness case: no line feed in
+the method, `req.Host`, `URL.Host` and any header value -/
+def noLFb (req : Req) : Bool :=
+  !req.method.contains 10 && !req.host.contains 10 && !req.urlHost.contains 10 &&
+  req.headers.all fun e => e.2.all fun v => !v.contains 10
 
 end EgVerif.Signer
